@@ -30,6 +30,11 @@ pub fn crash(depth: usize) -> Value {
         // a record with multi-byte UTF-8 text: a cut inside a character must still be a torn tail, not an unreadable log
         ("create table w(a int, \u{e9}\u{e8}\u{4e2d}\u{6587} int)", t0.clone(), Some(u0.clone()), true),
     ];
+    // a statement that spans several RowSets (2500 rows; the sessions run with target_rowset_size = 1, so every 1024-row chunk
+    // is flushed as a RowSet of its own): all of them must become visible through ONE manifest record
+    let big: String = format!("insert into t values {}", (1000..3500).map(|k| format!("({k},{})", k % 7)).collect::<Vec<_>>().join(","));
+    let big_rows: Rows = { let mut r = t0.clone(); r.extend((1000..3500).map(|k: i64| vec![k.to_string(), (k % 7).to_string()])); r };
+    let cases = { let mut c = cases; c.push((big.as_str(), big_rows, Some(u0.clone()), false)); c };
     let after: Vec<String> = vec!["select k, v from t".into(), "select k, v from u".into(), "select a from w".into(), "insert into t values (100,1000)".into(), "select k, v from t".into()];
     let again: Vec<String> = vec!["select k, v from t".into(), "select k, v from u".into(), "select a from w".into()];
     let block = 64usize;
